@@ -73,7 +73,7 @@ def run(p, led, tier):
                        "re-entrant user callbacks (on_state_change runs under the lock — assumption A3)"]
     led.assumptions = ["A1 no reflection", "A3 on_state_change does not call back into the store", "threading.Lock is non-re-entrant; `with` releases on every exit"]
     led.rule("C05-R1", "every read-for-update and write of a lock-protected field happens while the store's own lock is held", 12)
-    led.rule("C05-R2", "each operation touches the protected fields in exactly one critical section (no check-then-act across regions)", 5)
+    led.rule("C05-R2", "each operation touches the protected fields in exactly one critical section (no check-then-act across regions)", 3)
     led.rule("C05-R3", "no statement executed while a store lock is held can acquire any store lock", 5)
     led.rule("C05-R4", "no write to the protected fields outside ATP_Store", 1)
 
